@@ -265,7 +265,7 @@ structure DState where
 
 def opP (name : String) : P Op :=
   match name with
-  | "C08.query" => do
+  | "C08.query" | "C08.querylocked" => do
     let n ← pHex; let qt ← pNat; let a ← pHex; let cid ← pHex
     -- the zone field is optional (older corpus lines do not carry it)
     let zone ← (fun fs => match fs with
